@@ -51,3 +51,13 @@ Example C14_example :
   = mk_comps [104;116;116;112] [97] [47;98;47;103;59;120] [121] [115].
 Proof. vm_compute. reflexivity. Qed.
 Print Assumptions C14_example.
+
+(** Tie to the source by translation: URL.join of yarl/_url.py is re-read from the working
+    tree on every run (harness/gen_model.py, modifier scheme; [a or b] on strings, the walrus
+    bindings, [x[0]] / [x[-1]] guarded by an emptiness check that the proof shows is never
+    hit, ["/".join([*self.raw_parts[:-1], ""])]) and proved equal to the model function the
+    theorems above are about: it never raises and returns join_url. *)
+From Yarl Require Import Model.Url Model.GenTypes Generated.UrlGen Proofs.GenUrlProofs.
+Theorem C14_source_join : forall base ref : url, gen_join base ref = Ok (join_url base ref).
+Proof. exact gen_join_ok. Qed.
+Print Assumptions C14_source_join.
